@@ -483,6 +483,13 @@ func (s *bitcoinStream) genDepositTxs(r *tr.Rng) {
 			val, cls = 1<<63+uint64(r.Intn(1000)), cls+"/value-negative-int64"
 		}
 		sc, data := s.depositOutputs(k, version, evm, p.DepositMagicPrefix)
+		if k.Kind == "1" && r.Chance(12) {
+			// version 1 exists only for ECDSA keys: the obvious analogue for a Schnorr key (key-path output of the relayer key
+			// followed by the magic-prefixed data output) must not be accepted
+			version, cls = 1, "v1-k1/schnorr-analogue"
+			sc = s.sysScript(k)
+			data = append(append([]byte{0x6a, 0x18}, p.DepositMagicPrefix...), evm...)
+		}
 		if sc == nil {
 			continue
 		}
